@@ -20,7 +20,8 @@ Definition I : W.list_iface := W.mk_list_iface (list Z)
   (fun l => zlen l =? 0)                   (* Empty() *)
   (fun l i => opt_pair (al_get i l))       (* Get(i) *)
   (fun l i => (al_remove i l, tt))         (* Remove(i) *)
-  (fun l => zlen l).                       (* Size() *)
+  (fun l => zlen l)                        (* Size() *)
+  (fun l => l).                            (* Values() *)
 
 Notation content s := (W.list_ I s).
 
